@@ -5,7 +5,15 @@ import Sourmash.Model.Manifest
 /-! C12 driver: records from signatures, manifests through CSV text, record look-up.
 Model column = `Model/Csv.lean`, `Model/Manifest.lean`, `Model/Select.lean`;
 spec column = what the property demands (records read back = records written; each record field =
-the sketch's observable; a look-up returns the one sketch the record was built from). -/
+the sketch's observable; a look-up returns the one sketch the record was built from).
+
+`lookup i <backend>`: the same collection over filesystem / zip / RocksDB storage.  Storage only
+changes `load`: the model is `Collection.fromSigs` / `sigForDataset` over the signatures *as the
+storage hands them back* — a signature travels through its JSON form, which has one sketch type
+(`LargeMinHash` comes back as `MinHash`) and whose reader drops `num` when `max_hash ≠ 0`
+(`stored`); `rdb` first needs a `CollectionSet` (`collectionSetCheck`).  Locations are reported as
+the signature's position, as memory storage names them.  `fsm` (all signatures in ONE file):
+`Storage::load_sig` keeps the first signature of the file (`swap_remove(0)`), whatever the record. -/
 open Driver Select Scaled
 
 structure St where
@@ -59,6 +67,65 @@ def fromSigSpec (md5of : Sketch → Select.Bytes) (sg : Sig) (loc : Select.Bytes
         moltype := (match s.mol with | .dna => "DNA" | .protein => "protein" | .dayhoff => "dayhoff" | .hp => "hp").toUTF8.toList,
         num := s.num, scaled := s.scaled, nHashes := s.mins.length, withAbundance := s.tracked,
         name := nm, filename := sg.filename.getD [] }))
+
+/-- a sketch after `serde_json` out and in again (`impl Deserialize for KmerMinHash`) -/
+def stored (s : Sketch) : Sketch :=
+  { s with container := .vec, num := if s.maxHash != 0 then 0 else s.num }
+def storedSig (sg : Sig) : Sig := { sg with sketches := sg.sketches.map stored }
+
+def showLookup (md5of : Sketch → Select.Bytes) (c : Collection) (i : Nat) : String :=
+  match c.sigForDataset i with
+  | none => "PANIC"
+  | some (.error _) => "err"
+  | some (.ok sg) =>
+    String.fromUTF8! (ByteArray.mk ((c.manifest[i]!).internalLocation.toArray)) ++ "=" ++
+      (if sg.sketches.isEmpty then "-" else ";".intercalate (sg.sketches.map (fun s => descr (md5of s) s)))
+
+def showSelErr : Select.Err → String
+  | .CannotUpsampleScaled => "err CannotUpsampleScaled"
+  | .MismatchKSizes => "err MismatchKSizes"
+  | .MismatchDNAProt => "err MismatchDNAProt"
+
+/-- manifest and storage of a collection whose signatures sit in files / zip entries / database
+values, one signature per location: the records come from `Record::from_sig` (which panics on a
+nameless signature with several sketches); a signature is turned into a `SigStore` (which evaluates
+its name) only when it is loaded -/
+def storedParts (md5of : Sketch → Select.Bytes) : Nat → List Sig → Option (List Record × List (Select.Bytes × Sig))
+  | _, [] => some ([], [])
+  | i, s :: rest =>
+    match fromSig md5of s (natBytes i), storedParts md5of (i + 1) rest with
+    | some recs, some (rs, sts) => some (recs ++ rs, (natBytes i, s) :: sts)
+    | _, _ => none
+
+/-- look-up in a collection over a non-memory storage -/
+def lookupStored (st : St) (i : Nat) (be : String) : Resp :=
+  let tbl := st.md5s ++ st.md5s.map (fun p => (stored p.1, p.2))
+  let md5of := md5Lookup tbl
+  let sigs := st.sigs.map storedSig
+  let flat := (sigs.zipIdx.map (fun (sg, si) => sg.sketches.map (fun s => (si, s)))).flatten
+  match storedParts md5of 0 sigs with
+  | none => { model := "PANIC" }
+  | some (recs, sts) =>
+    if be == "fsm" then
+      -- one file: every record points at it, `load_sig` returns its first signature
+      let c' : Collection :=
+        { manifest := recs.map (fun r => { r with internalLocation := natBytes 0 }),
+          storage := match sts with | [] => [] | p :: _ => [(natBytes 0, p.2)] }
+      let loadable := match sts with | [] => true | p :: _ => (sigStoreOf md5of p.2).isSome
+      { model := if loadable then showLookup md5of c' i else "PANIC",
+        spec := match flat[i]? with
+          | some (_, s) => "0=" ++ descr (md5of s) s
+          | none => "-" }
+    else
+    let c : Collection := { manifest := recs, storage := sts }
+    let spec := match flat[i]? with
+      | some (si, s) => toString si ++ "=" ++ descr (md5of s) s
+      | none => "-"
+    if be == "rdb" then
+      match collectionSetCheck c.manifest with
+      | .error e => { model := showSelErr e }      -- no such collection: the property says nothing
+      | .ok () => { model := showLookup md5of c i, spec := spec }
+    else { model := showLookup md5of c i, spec := spec }
 
 def stepC12 (st : St) (ws : List String) : St × Resp :=
   match ws with
@@ -134,6 +201,7 @@ def stepC12 (st : St) (ws : List String) : St × Resp :=
           String.fromUTF8! (ByteArray.mk ((c.manifest[i]!).internalLocation.toArray)) ++ "=" ++
             (if sg.sketches.isEmpty then "-" else ";".intercalate (sg.sketches.map (fun s => descr (md5of s) s)))
       (st, { model := model, spec := spec })
+  | ["lookup", i, be] => (st, lookupStored st i.toNat! be)
   | ["zipcheck", _] => (st, { model := "-", spec := "faithful" })
   | _ => (st, { model := "bad-op" })
 
